@@ -180,15 +180,15 @@ func genParse(t *rapid.T) ParseCase {
 // ---------- workload 3: WebSocket ----------
 
 type WSCase struct {
-	Seq          c13.Case `json:"seq"`
-	Release      bool     `json:"release_payload"`
-	UserFree     bool     `json:"user_frees_payload"`
-	DataFrames   bool     `json:"data_frame_handler"`
-	StopAt       int      `json:"stop_at"`       // close after this many segments (-1 = all)
-	WriteSizes   []int    `json:"write_sizes"`   // messages written back from inside OnMessage
-	FailWriteAt  int      `json:"fail_write_at"` // k-th conn write fails (0 never)
-	WriteCompress bool    `json:"write_compress"`
-	Limit         int     `json:"limit"`
+	Seq           c13.Case `json:"seq"`
+	Release       bool     `json:"release_payload"`
+	UserFree      bool     `json:"user_frees_payload"`
+	DataFrames    bool     `json:"data_frame_handler"`
+	StopAt        int      `json:"stop_at"`       // close after this many segments (-1 = all)
+	WriteSizes    []int    `json:"write_sizes"`   // messages written back from inside OnMessage
+	FailWriteAt   int      `json:"fail_write_at"` // k-th conn write fails (0 never)
+	WriteCompress bool     `json:"write_compress"`
+	Limit         int      `json:"limit"`
 }
 
 func setBool(obj any, field string, v bool) bool {
